@@ -1,15 +1,24 @@
 #!/bin/bash
-# usage: tools/seed_recheck.sh <seed-name> <check ids...>: re-run checks against /repo with seeded/<seed-name>/patch.diff applied, then undo
+# usage: [VIA_COPY=1] [TIER=thorough] tools/seed_recheck.sh <seed-name> <check ids...>
+# re-runs checks with seeded/<seed-name>/patch.diff applied: to /repo itself (undone afterwards), or with VIA_COPY=1 to a scratch
+# copy of /repo's tree under /tmp that the checks are pointed at (when /repo is in use by a long run)
 NAME=$1; shift
 DST=/verif/seeded/$NAME
-git -C /repo apply $DST/patch.diff || exit 2
+if [ -n "${VIA_COPY:-}" ]; then
+  TREE=/tmp/recheck_$NAME; rm -rf $TREE; mkdir -p $TREE
+  (cd /repo && git archive HEAD) | tar -x -C $TREE
+  (cd $TREE && patch -p1 --binary -s < $DST/patch.diff) || exit 2
+else
+  TREE=/repo
+  git -C /repo apply --whitespace=nowarn $DST/patch.diff || exit 2
+fi
 for c in "$@"; do
-  out=$(cd /verif && timeout 2400 ./check $c --tier ${TIER:-quick} 2>&1 | tail -40)
+  out=$(cd /verif && VERIF_REPO=$TREE timeout 2400 ./check $c --tier ${TIER:-quick} 2>&1 | tail -40)
   nviol=$(echo "$out" | grep -c "^VIOLATION")
   echo "check $c: violations=$nviol :: $(echo "$out" | tail -1)"
   echo "$out" | grep "^VIOLATION" | head -3 > $DST/check_$c.log
   echo "$out" | tail -1 >> $DST/check_$c.log
 done
-git -C /repo checkout -- .
+if [ -n "${VIA_COPY:-}" ]; then rm -rf $TREE; else git -C /repo checkout -- .; fi
 rm -f /verif/replays/*.json
-git -C /verif checkout -- evidence
+git -C /verif checkout -- evidence coq/Model/Schemas.v coq/Model/UnitTable.v 2>/dev/null
